@@ -294,6 +294,9 @@ impl Ctx {
             _ => {}
         }
         w.rec.compared += 1;
+        if req.input.len() >= 4096 {
+            w.rec.large_input_outcomes += 1;
+        }
         if got.is_ok() {
             // path purity: the same request must take the same path through the library
             let sig = hook::last_sig();
@@ -1162,6 +1165,7 @@ pub fn run(
     let spec = Arc::new(spec);
     hashkeys::reseed(spec.hash_stream);
     let _ = crate::envseam::take_counts();
+    let _ = crate::envseam::take_cpu_reads();
     crate::envseam::set_plan(spec.env_plan);
     hook::new_run_epoch();
     CLOCK.store(0, Ordering::Relaxed);
@@ -1304,6 +1308,7 @@ pub fn run(
     rec.env_reads = env_reads;
     rec.env_perturbed = env_perturbed;
     rec.env_keys = env_keys;
+    rec.cpu_reads = crate::envseam::take_cpu_reads();
     if want_trace {
         rec.callsigs = Some(std::mem::take(&mut w.callsigs));
         rec.workload = Some(std::mem::take(&mut w.workload));
